@@ -162,6 +162,16 @@ func (f *frame) doCall(c *ssa.CallCommon, pos token.Pos, site ssa.Instruction) [
 		}
 		fv := f.val(c.Value)
 		f.oblige("nil", pos, mkNot(mkEq(fv, i64(0))))
+		if _, ok := assumedPure[valueName(c.Value)]; ok {
+			vc.trust("callback assumed pure: " + valueName(c.Value))
+			n := sig.Results().Len()
+			rs := make([]Term, n)
+			for i := 0; i < n; i++ {
+				rs[i] = f.freshOf("cb", sig.Results().At(i).Type())
+			}
+			f.noteEvent("call", c.Value, args, rs)
+			return rs
+		}
 		rs := f.havocCall(nil, sig, c.Args, true)
 		f.noteEvent("call", c.Value, args, rs)
 		return rs
